@@ -140,3 +140,15 @@ pub fn footer_zones() -> Vec<(RefZone, u8, V1Block, bool)> {
     }
     out
 }
+
+/// Many-transition family: a table of n daily transitions cycling through +01:00, +02:00, +03:00 (two skipped hours,
+/// then two repeated hours; period 3, so that an index wrapped at 2^8 or 2^16 lands on a different type), for the counts
+/// at which an index or a count kept in a narrow integer would wrap. No footer.
+pub const MANY_COUNTS: [usize; 10] = [255, 256, 257, 300, 1000, 65_535, 65_536, 65_537, 65_540, 70_000];
+pub const MANY_OFFS: [i32; 3] = [3600, 7200, 10800];
+pub fn many_transition_zone(n: usize) -> (RefZone, u8, V1Block, bool) {
+    let t0 = days_from_civil(2000, 1, 15) * 86400;
+    let types = vec![RefType { off: 3600, dst: false, abbr: "STD".into() }, RefType { off: 7200, dst: true, abbr: "DST".into() }, RefType { off: 10800, dst: true, abbr: "DDT".into() }];
+    let trans: Vec<(i64, usize)> = (0..n).map(|i| (t0 + i as i64 * 86400, (i + 1) % 3)).collect();
+    (RefZone { trans, types, rule: None }, if n % 2 == 0 { 2 } else { 3 }, V1Block::Slim, n % 3 == 0)
+}
